@@ -3261,15 +3261,12 @@ _dispatch_lane_legacy_set_target_queue(void *ctxt)
 
 	tq = _dispatch_queue_priority_inherit_from_target(dq, tq);
 	_dispatch_lane_inherit_wlh_from_target(dq, tq);
-#if HAVE_PTHREAD_WORKQUEUE_QOS
-	// see _dispatch_queue_wakeup()
+	// see _dispatch_queue_wakeup() and _dispatch_wait_compute_wlh(): the
+	// latter walks the target queues of a mutable queue under its side lock
+	// on every platform, without holding a reference on them
 	_dispatch_queue_sidelock_lock(dq);
-#endif
 	dq->do_targetq = tq;
-#if HAVE_PTHREAD_WORKQUEUE_QOS
-	// see _dispatch_queue_wakeup()
 	_dispatch_queue_sidelock_unlock(dq);
-#endif
 
 	_dispatch_object_debug(dq, "%s", __func__);
 	_dispatch_introspection_target_queue_changed(dq->_as_dq);
